@@ -311,6 +311,10 @@ def model_specs(draw, profile=None):
                 for tgt in members[1:]:
                     attach(jn, tgt, new_par("proportion"))
                 g.labels.add("timed:in-group-junction")
+                if g.coin(0.5):
+                    # a second time-preserving inflow into the in-group junction (from another member of the group)
+                    attach(g.pick(members[1:]), jn, par_for_edge(members[1], allow_reuse=False))
+                    g.labels.add("timed:in-group-junction-two-inflows")
             else:
                 for a, b in zip(members[:-1], members[1:]):
                     attach(a, b, par_for_edge(a, allow_reuse=False))
